@@ -6,7 +6,7 @@
     commutative ring (MathComp [comRingType]), [ROps R ...] = the model's operations instantiated with
     the ring operations, the uninterpreted ones (division, sqrt, fabs, <) arbitrary. *)
 From mathcomp Require Import all_ssreflect all_algebra.
-From LP Require Import Num C04_Model C04_State C04_Proofs_Struct C04_Proofs_Laws C04_Proofs_Block C04_Proofs_State.
+From LP Require Import Num C04_Model C04_State C04_Life C04_Proofs_Struct C04_Proofs_Laws C04_Proofs_Block C04_Proofs_State C04_Proofs_Life.
 Import GRing.Theory.
 Local Open Scope ring_scope.
 
@@ -277,6 +277,51 @@ Theorem C04_vector_state (v old : vec T) (n i : nat) (e x : T) :
       v_copy v = v & v_assign_from old v = v].
 Proof. exact (And5 (v_resize_spec Ops v n) (v_assign_spec v n e) (@v_set_spec T Ops v i x) (v_copy_spec v) (v_assign_from_spec old v)). Qed.
 Print Assumptions C04_vector_state.
+(** Sessions ("all operator spellings" on objects that live on: several matrices / vectors in one process, member calls on
+    them one after the other, operands written out or other live objects, possibly the object itself; model coq/C04_Life.v,
+    the term the driver runs for `life` cases).  The data members are (rows, columns, components) and nothing else, so the
+    const members are functions of the current value of the object (C04_Model.v) whatever was called before.
+    A call on object k replaces it by [m_mut] of its current value and leaves every other live object untouched: *)
+Theorem C04_life_step (ms ms' : seq (mat T)) (k : nat) (o : @mmut T) : life_m Ops ms k o = Ok ms' ->
+  [/\ (k < size ms)%N, size ms' = size ms,
+      m_mut Ops ms (nth (mkMat 0 0 [::]) ms k) o = Ok (nth (mkMat 0 0 [::]) ms' k) &
+      forall j, j != k -> nth (mkMat 0 0 [::]) ms' j = nth (mkMat 0 0 [::]) ms j].
+Proof. exact (@life_m_spec T Ops ms k o ms'). Qed.
+Print Assumptions C04_life_step.
+(** every call that changes an object (Resize, Assign, Delete_Row/Column, M[i][j] = x, copies, =, +=, -=, = A + B, = A - B,
+    = A.Transpose(), = A * s, = A / s, = Matrix(r,c), = Matrix()) re-establishes the class invariant; hence all live objects
+    satisfy it at every point of every session, and the theorems above apply to an object of any past *)
+Theorem C04_life_invariant (ms ms' : seq (mat T)) (A A' : mat T) (k : nat) (o : @mmut T) :
+  all (@wf_mat T) ms -> mmut_ok o ->
+  (wf_mat A -> m_mut Ops ms A o = Ok A' -> wf_mat A') /\
+  (life_m Ops ms k o = Ok ms' -> all (@wf_mat T) ms').
+Proof. exact (fun H Ho => conj (fun HA => @m_mut_wf T Ops ms A A' o H HA Ho) (@life_m_wf T Ops ms k o ms' H Ho)). Qed.
+Print Assumptions C04_life_invariant.
+(** "sums and differences ... agree with their compound-assignment forms", as objects: A += B and A = A + B (A -= B and
+    A = A - B) leave the same object behind - and so the same answers of every member afterwards - also when B is A itself
+    or another live object *)
+Theorem C04_life_compound (ms : seq (mat T)) (A : mat T) (a : @marg T) : (0 < mrows A)%N ->
+  m_mut Ops ms A (MuAddAssign a) = m_mut Ops ms A (MuPlus a) /\
+  m_mut Ops ms A (MuSubAssign a) = m_mut Ops ms A (MuMinus a).
+Proof. exact (@m_mut_compound T Ops ms A a). Qed.
+Print Assumptions C04_life_compound.
+(** the same for Vector *)
+Theorem C04_life_vector (vs vs' : seq (vec T)) (v v' : vec T) (k : nat) (o : @vmut T) (a : @varg T) :
+  [/\ life_v Ops vs k o = Ok vs' ->
+      [/\ (k < size vs)%N, size vs' = size vs,
+          v_mut Ops vs (nth (mkVec 0 [::]) vs k) o = Ok (nth (mkVec 0 [::]) vs' k) &
+          forall j, j != k -> nth (mkVec 0 [::]) vs' j = nth (mkVec 0 [::]) vs j],
+      all (@wf_vec T) vs -> vmut_ok o ->
+        (wf_vec v -> v_mut Ops vs v o = Ok v' -> wf_vec v') /\
+        (life_v Ops vs k o = Ok vs' -> all (@wf_vec T) vs'),
+      v_mut Ops vs v (VuAddAssign a) = v_mut Ops vs v (VuPlus a) &
+      v_mut Ops vs v (VuSubAssign a) = v_mut Ops vs v (VuMinus a)].
+Proof.
+  exact (And4 (@life_v_spec T Ops vs k o vs')
+              (fun H Ho => conj (fun Hv => @v_mut_wf T Ops vs v v' o H Hv Ho) (@life_v_wf T Ops vs k o vs' H Ho))
+              (proj1 (@v_mut_compound T Ops vs v a)) (proj2 (@v_mut_compound T Ops vs v a))).
+Qed.
+Print Assumptions C04_life_vector.
 End AnyNumberType.
 
 (** Non-vacuity of the laws assumed above: the natural numbers satisfy them; a 2x3 * 3x2 instance,
